@@ -53,11 +53,15 @@ struct LockSt {
 pub static FATAL: Mutex<Option<(String, String)>> = Mutex::new(None);
 
 fn fatal(st: &St, msg: &str) -> ! {
+    fatal_as(st, "C06", msg)
+}
+
+fn fatal_as(st: &St, prop: &str, msg: &str) -> ! {
     if let Some((outdir, descr)) = FATAL.lock().unwrap().clone() {
         let tail: Vec<String> = st.trace.iter().rev().take(60).rev()
             .map(|(t, ev)| format!("{} {:?}", if *t == MAIN { "main".to_string() } else { t.to_string() }, ev)).collect();
         let grants: String = st.grants.iter().map(|g| g.to_string()).collect();
-        let j = serde_json::json!({ "prop": "C06", "what": msg, "execution": descr, "schedule": grants, "trace_tail": tail });
+        let j = serde_json::json!({ "prop": prop, "what": msg, "execution": descr, "schedule": grants, "trace_tail": tail });
         let _ = std::fs::create_dir_all(&outdir);
         let _ = std::fs::write(format!("{}/fatal.json", outdir), j.to_string() + "\n");
     }
@@ -172,6 +176,13 @@ impl Sched {
             st.deadlock = true;
         }
         Some(en)
+    }
+
+    /// every live thread waits for a lock: the execution cannot be completed, report it and stop
+    pub fn report_deadlock(&self) -> ! {
+        let st = self.st.lock().unwrap();
+        let waiting: Vec<String> = (0..st.status.len()).filter(|t| st.status[*t] != Status::Finished).map(|t| t.to_string()).collect();
+        fatal_as(&st, "C05", &format!("deadlock: thread(s) {} wait for a lock that is never released (a thread blocks on a lock it holds itself, or the tree was torn down under a lock)", waiting.join(",")))
     }
 
     pub fn grant(&self, t: usize) {
